@@ -128,3 +128,54 @@ def arm_targets(F, body, adt, min_frac=0.75):
             if nm not in out:
                 out[nm] = [t["otherwise"]]
     return out, blk["id"]
+
+
+def external_enum_variants(repo, crate, relpath, enum_name):
+    """{index: variant name} of a field-less-or-not enum of a third-party crate, read from the source of the version Cargo.lock pins
+    (the fact files hold workspace ADTs only).  None if the source is not found."""
+    import glob, os, re
+    ver = None
+    try:
+        lock = open(os.path.join(repo, "Cargo.lock")).read()
+    except OSError:
+        return None
+    m = re.search(r'name = "%s"\nversion = "([^"]+)"' % re.escape(crate), lock)
+    if m:
+        ver = m.group(1)
+    cands = glob.glob(os.path.expanduser("~/.cargo/registry/src/*/%s-%s/%s" % (crate, ver or "*", relpath)))
+    if not cands:
+        return None
+    src = open(sorted(cands)[-1]).read()
+    m = re.search(r"pub enum %s\b[^{]*\{" % re.escape(enum_name), src)
+    if not m:
+        return None
+    i, depth, body = m.end(), 1, []
+    while i < len(src) and depth:
+        c = src[i]
+        if c == "{":
+            depth += 1
+        elif c == "}":
+            depth -= 1
+        if depth:
+            body.append(c)
+        i += 1
+    text = re.sub(r"//[^\n]*", "", "".join(body))
+    text = re.sub(r"#\[[^\]]*\]", "", text)
+    names, depth, cur = [], 0, ""
+    for c in text:
+        if c in "({<":
+            depth += 1
+        elif c in ")}>":
+            depth -= 1
+        elif c == "," and depth == 0:
+            names.append(cur)
+            cur = ""
+            continue
+        if depth == 0 or c in "({<":
+            cur += c if depth == 0 else ""
+    if cur.strip():
+        names.append(cur)
+    out = {}
+    for k, n in enumerate(x.strip() for x in names if x.strip()):
+        out[k] = re.match(r"[A-Za-z_][A-Za-z0-9_]*", n).group(0)
+    return out
